@@ -4,6 +4,16 @@
 //! records when every sample was written / could have reached the reader and every observation of
 //! the deadline-missed statuses (status reads on the writer, listener callbacks on both sides,
 //! status-condition trigger values). The oracle is a pure function of that history.
+//!
+//! Instance life cycle (1-4 instances per writer): in a share of the cases some instances are
+//! disposed / unregistered by the writer at random points while the others stay alive and go idle.
+//! An instance that stays alive (registered, not disposed) must be counted exactly, once per full
+//! period without a sample, whatever happened to the other instances. For the instance that was
+//! disposed / unregistered itself DDS 1.4 (2.2.3.7 DEADLINE: "each instance managed by the
+//! DataWriter", "a new sample updating the value of each instance") leaves room, so from the
+//! dispose / unregister until the next write of THAT instance every one of these is accepted:
+//! (1) not monitored any more (dust-dds writer side), (2) monitored on as if nothing had happened,
+//! (3) the dispose / unregister counts as an update that restarts the period (dust-dds reader side).
 use crate::common::*;
 use crate::rec::*;
 use dust_dds::infrastructure::qos::{DataReaderQos, DataWriterQos, QosKind};
@@ -27,7 +37,12 @@ struct P {
     /// level of the listener enabled for REQUESTED_DEADLINE_MISSED on the reader side
     r_lst: u8,
     poll_ms: i64,
-    steps: Vec<(i64, u32)>,
+    /// (gap before the operation, instance, operation: OP_WRITE / OP_DISPOSE / OP_UNREGISTER)
+    steps: Vec<(i64, u32, u8)>,
+    /// instances disposed / unregistered after the final back-to-back writes
+    final_ends: Vec<(u32, u8)>,
+    /// delay of those operations after the final writes, in tenths of a writer period
+    final_end_delay: i64,
     final_periods: i64,
     stride: i64,
     policy: Policy,
@@ -36,13 +51,28 @@ struct P {
 }
 
 const DS: [i64; 3] = [100, 330, 1000];
+const OP_WRITE: u8 = 0;
+const OP_DISPOSE: u8 = 1;
+const OP_UNREGISTER: u8 = 2;
+
+fn op_name(k: u8) -> &'static str {
+    match k {
+        OP_WRITE => "write",
+        OP_DISPOSE => "dispose",
+        _ => "unregister",
+    }
+}
 
 fn gen_params(rng: &mut Rng, thorough: bool) -> P {
     let wi = rng.usize(3);
     let ri = wi + rng.usize(3 - wi);
     let d_w = DS[wi];
     let d_r = DS[ri];
-    let n_inst = 1 + rng.below(3) as u32;
+    let n_inst = 1 + rng.below(4) as u32;
+    // share of the cases in which instances are disposed / unregistered during phase 1
+    let p_end = *rng.pick(&[0.0f64, 0.0, 0.15, 0.3]);
+    // registered = written since the last unregister_instance (dispose / unregister need that)
+    let mut registered = vec![false; n_inst as usize];
     let w_lst = if rng.chance(0.25) { None } else { Some(rng.below(3) as u8) };
     let mut w_cond = rng.below(3) as u8;
     if w_lst.is_none() && w_cond == 2 {
@@ -81,8 +111,26 @@ fn gen_params(rng: &mut Rng, thorough: bool) -> P {
         }
         total += gap;
         let inst = rng.below(n_inst as u64) as u32;
-        steps.push((gap, inst));
+        let mut op = OP_WRITE;
+        if p_end > 0.0 && registered[inst as usize] && rng.chance(p_end) {
+            op = if rng.bool() { OP_DISPOSE } else { OP_UNREGISTER };
+        }
+        match op {
+            OP_UNREGISTER => registered[inst as usize] = false,
+            OP_WRITE => registered[inst as usize] = true,
+            _ => {}
+        }
+        steps.push((gap, inst, op));
     }
+    let mut final_ends = Vec::new();
+    if rng.chance(0.5) {
+        for inst in 0..n_inst {
+            if rng.chance(0.4) {
+                final_ends.push((inst, if rng.bool() { OP_DISPOSE } else { OP_UNREGISTER }));
+            }
+        }
+    }
+    let final_end_delay = *rng.pick(&[0i64, 0, 4, 13, 26]);
     P {
         d_w,
         d_r,
@@ -92,6 +140,8 @@ fn gen_params(rng: &mut Rng, thorough: bool) -> P {
         r_lst: rng.below(3) as u8,
         poll_ms: *rng.pick(&[0i64, 23, 70, 250]),
         steps,
+        final_ends,
+        final_end_delay,
         final_periods: 5 + rng.below(3) as i64,
         stride: 1 + rng.below(3) as i64,
         policy: pick_policy(rng),
@@ -124,9 +174,14 @@ impl P {
             .set("reader_side_listener", level_name(self.r_lst, true))
             .set("status_poll_period_ms", self.poll_ms)
             .set(
-                "steps(gap_ms,instance)",
-                self.steps.iter().map(|s| format!("{}:{}", s.0, s.1)).collect::<Vec<_>>(),
+                "steps(gap_ms,instance,operation)",
+                self.steps.iter().map(|s| format!("{}:{}:{}", s.0, s.1, op_name(s.2))).collect::<Vec<_>>(),
             )
+            .set(
+                "after_final_writes(instance,operation)",
+                self.final_ends.iter().map(|s| format!("{}:{}", s.0, op_name(s.1))).collect::<Vec<_>>(),
+            )
+            .set("after_final_writes_delay_tenths_of_writer_period", self.final_end_delay)
             .set("final_silence_reader_periods", self.final_periods)
             .set("quiet_point_stride", self.stride)
             .set("policy", format!("{:?}", self.policy))
@@ -138,6 +193,7 @@ impl P {
 #[derive(Clone, Debug)]
 struct WriteRec {
     inst: u32,
+    op: u8,
     t0: i64,
     t1: i64,
     ok: bool,
@@ -279,15 +335,19 @@ async fn scenario(w: World, p: P) -> Out {
     };
 
     let mut seq = 0u32;
-    for (gap, inst) in &p.steps {
+    for (gap, inst, op) in &p.steps {
         sim.sleep(gap * MS).await;
         let t0 = sim.now();
-        let r = sim.timeout(5 * SEC, dw.write(msg(*inst, 0, seq, 16), None)).await;
+        let r = match *op {
+            OP_WRITE => sim.timeout(5 * SEC, dw.write(msg(*inst, 0, seq, 16), None)).await,
+            OP_DISPOSE => sim.timeout(5 * SEC, dw.dispose(msg(*inst, 0, seq, 16), None)).await,
+            _ => sim.timeout(5 * SEC, dw.unregister_instance(msg(*inst, 0, seq, 16), None)).await,
+        };
         let t1 = sim.now();
         seq += 1;
-        out.writes.push(WriteRec { inst: *inst, t0, t1, ok: matches!(r, Ok(Ok(()))) });
+        out.writes.push(WriteRec { inst: *inst, op: *op, t0, t1, ok: matches!(r, Ok(Ok(()))) });
         if !matches!(r, Ok(Ok(()))) {
-            out.api_error = Some("write failed".into());
+            out.api_error = Some(format!("{} failed", op_name(*op)));
         }
     }
     *stop.borrow_mut() = true;
@@ -301,12 +361,31 @@ async fn scenario(w: World, p: P) -> Out {
         let r = sim.timeout(5 * SEC, dw.write(msg(inst, 0, seq, 16), None)).await;
         let t1 = sim.now();
         seq += 1;
-        out.writes.push(WriteRec { inst, t0, t1, ok: matches!(r, Ok(Ok(()))) });
+        out.writes.push(WriteRec { inst, op: OP_WRITE, t0, t1, ok: matches!(r, Ok(Ok(()))) });
         if !matches!(r, Ok(Ok(()))) {
             out.api_error = Some("write failed".into());
         }
     }
     let t_fw = sim.now();
+    // some instances leave (disposed / unregistered) while the others stay alive and idle
+    if !p.final_ends.is_empty() {
+        if p.final_end_delay > 0 {
+            sim.sleep(p.final_end_delay * p.d_w * MS / 10).await;
+        }
+        for (inst, op) in &p.final_ends {
+            let t0 = sim.now();
+            let r = match *op {
+                OP_DISPOSE => sim.timeout(5 * SEC, dw.dispose(msg(*inst, 0, seq, 16), None)).await,
+                _ => sim.timeout(5 * SEC, dw.unregister_instance(msg(*inst, 0, seq, 16), None)).await,
+            };
+            let t1 = sim.now();
+            seq += 1;
+            out.writes.push(WriteRec { inst: *inst, op: *op, t0, t1, ok: matches!(r, Ok(Ok(()))) });
+            if !matches!(r, Ok(Ok(()))) {
+                out.api_error = Some(format!("{} failed", op_name(*op)));
+            }
+        }
+    }
     let final_ns = p.final_periods * p.d_r * MS;
     let mut n = 0i64;
     loop {
@@ -315,6 +394,11 @@ async fn scenario(w: World, p: P) -> Out {
             break;
         }
         let now = sim.now();
+        if q < now {
+            // quiet point already passed while instances were disposed / unregistered
+            n += 1;
+            continue;
+        }
         if q > now {
             sim.sleep(q - now).await;
         }
@@ -372,19 +456,6 @@ fn upper(s: &[Iv], d: i64, t: i64) -> i64 {
     sum + fdiv(t - certain[certain.len() - 1].0, d)
 }
 
-/// Smallest number of misses a conforming implementation (detection lag <= `lag`) must have counted by `t`.
-fn lower(s: &[Iv], d: i64, t: i64, lag: i64) -> i64 {
-    let v: Vec<&Iv> = s.iter().filter(|x| x.0 <= t).collect();
-    if v.is_empty() {
-        return 0;
-    }
-    let mut sum = 0;
-    for k in 0..v.len() - 1 {
-        sum += fdiv(v[k + 1].0 - v[k].1 - lag, d);
-    }
-    sum + fdiv(t - v[v.len() - 1].1 - lag, d)
-}
-
 /// May the instance be overdue (a full period without a sample) at some time in [a, b]?
 fn possibly_overdue(s: &[Iv], d: i64, a: i64, b: i64, margin: i64) -> bool {
     let mut points: Vec<i64> = vec![a];
@@ -412,10 +483,59 @@ fn possibly_overdue(s: &[Iv], d: i64, a: i64, b: i64, margin: i64) -> bool {
     false
 }
 
+/// One operation on an instance as seen by one side: [lo, hi] = when it took effect there.
+#[derive(Clone, Copy, Debug)]
+struct Ev {
+    lo: i64,
+    hi: i64,
+    op: u8,
+}
+
+/// The events that restart the period of the instance under one reading of the specification.
+fn restarts(ev: &[Ev], dispose_restarts: bool, unregister_restarts: bool) -> Vec<Iv> {
+    ev.iter()
+        .filter(|e| e.op == OP_WRITE || (e.op == OP_DISPOSE && dispose_restarts) || (e.op == OP_UNREGISTER && unregister_restarts))
+        .map(|e| (e.lo, e.hi))
+        .collect()
+}
+
+fn samples(ev: &[Ev]) -> Vec<Iv> {
+    restarts(ev, false, false)
+}
+
+/// Largest count any legitimate behaviour may show for one instance by `t`: a disposed /
+/// unregistered instance may be monitored on, with or without a restart of the period at the
+/// dispose / unregister (readings 2 and 3 of the header; reading 1 never counts more than 3).
+fn upper_ev(ev: &[Ev], d: i64, t: i64) -> i64 {
+    let mut m = upper(&samples(ev), d, t);
+    if ev.iter().any(|e| e.op != OP_WRITE) {
+        for (a, b) in [(true, true), (true, false), (false, true)] {
+            m = m.max(upper(&restarts(ev, a, b), d, t));
+        }
+    }
+    m
+}
+
+/// Smallest count every legitimate behaviour (detection lag <= `lag`) must show for one instance by
+/// `t`: the silence after a sample is counted until the next operation on the instance; nothing is
+/// demanded between a dispose / unregister and the next sample (reading 1 of the header).
+fn lower_ev(ev: &[Ev], d: i64, t: i64, lag: i64) -> i64 {
+    let v: Vec<&Ev> = ev.iter().filter(|e| e.lo <= t).collect();
+    let mut sum = 0;
+    for k in 0..v.len() {
+        if v[k].op != OP_WRITE {
+            continue;
+        }
+        let end = if k + 1 < v.len() { v[k + 1].lo } else { t };
+        sum += fdiv(end - v[k].hi - lag, d);
+    }
+    sum
+}
+
 struct Side<'a> {
     name: &'static str,
     d: i64,
-    inst: Vec<Vec<Iv>>,
+    inst: Vec<Vec<Ev>>,
     /// (record time or read start, read end, total, change, is_read)
     obs: Vec<(i64, i64, i32, i32, bool)>,
     lag: i64,
@@ -428,8 +548,11 @@ fn ms(t: i64) -> f64 {
 
 fn evaluate_side(rep: &mut Report, s: &Side, replay: &Json, fired: &mut Vec<String>) -> (i64, i64) {
     let d = s.d;
-    let up = |t: i64| -> i64 { s.inst.iter().map(|i| upper(i, d, t)).sum() };
-    let lo = |t: i64| -> i64 { s.inst.iter().map(|i| lower(i, d, t, s.lag)).sum() };
+    let up = |t: i64| -> i64 { s.inst.iter().map(|i| upper_ev(i, d, t)).sum() };
+    let lo = |t: i64| -> i64 { s.inst.iter().map(|i| lower_ev(i, d, t, s.lag)).sum() };
+    // samples only: an instance that was disposed / unregistered may legitimately be overdue
+    let smp: Vec<Vec<Iv>> = s.inst.iter().map(|i| samples(i)).collect();
+    let ended_by = |t: i64| -> bool { s.inst.iter().any(|i| i.iter().any(|e| e.op != OP_WRITE && e.lo <= t)) };
     let mut v = |rep: &mut Report, kind: &str, what: String, extra: Json| {
         let sig = format!("side={}|{}", s.name, kind);
         if !fired.contains(&sig) {
@@ -437,7 +560,7 @@ fn evaluate_side(rep: &mut Report, s: &Side, replay: &Json, fired: &mut Vec<Stri
             rep.violation(sig, what, replay.clone().set("violation", kind).set("side", s.name).set("detail", extra));
         }
     };
-    let t_first = s.inst.iter().filter_map(|i| i.first().map(|x| x.0)).min().unwrap_or(EPOCH_NS);
+    let t_first = s.inst.iter().filter_map(|i| i.first().map(|x| x.lo)).min().unwrap_or(EPOCH_NS);
     let mut obs = s.obs.clone();
     obs.sort_by_key(|o| (o.1, o.2));
     let mut max_total = 0i32;
@@ -450,11 +573,13 @@ fn evaluate_side(rep: &mut Report, s: &Side, replay: &Json, fired: &mut Vec<Stri
         if total > max_total {
             // the count rose somewhere in (t_low, t1]
             let a = t_low - s.lag - MS;
-            let overdue = s.inst.iter().any(|i| possibly_overdue(i, d, a, t1, MS));
+            let overdue = smp.iter().any(|i| possibly_overdue(i, d, a, t1, MS));
+            // root-cause qualifier: some instance of this endpoint had been disposed / unregistered
+            let q = if ended_by(t1) { "|some_instance_disposed_or_unregistered=yes" } else { "" };
             if !overdue {
                 v(
                     rep,
-                    "spurious",
+                    &format!("spurious{q}"),
                     format!(
                         "{} deadline-missed total_count rose from {} to {} between {:.3} ms and {:.3} ms although every instance received a sample less than one period ({} ms) before every instant of that window",
                         s.name, max_total, total, ms(t_low), ms(t1), d / MS
@@ -464,30 +589,48 @@ fn evaluate_side(rep: &mut Report, s: &Side, replay: &Json, fired: &mut Vec<Stri
             } else if (total as i64) > u {
                 v(
                     rep,
-                    "over_count",
+                    &format!("over_count{q}"),
                     format!(
-                        "{} deadline-missed total_count = {} at {:.3} ms, but at most {} full periods of {} ms had elapsed without a sample (summed over {} instance(s))",
-                        s.name, total, ms(t1), u, d / MS, s.inst.len()
+                        "{} deadline-missed total_count = {} at {:.3} ms, but at most {} full periods of {} ms had elapsed without a sample (summed over {} instance(s){})",
+                        s.name, total, ms(t1), u, d / MS, s.inst.len(),
+                        if q.is_empty() { "" } else { "; a disposed / unregistered instance is allowed to be counted on, with or without a restart of its period" }
                     ),
                     Json::obj()
                         .set("total_count", total)
                         .set("upper_bound", u)
                         .set("at_ms", ms(t1))
-                        .set("last_samples_ms", s.inst.iter().map(|i| i.iter().filter(|x| x.0 <= t1).last().map(|x| ms(x.0)).unwrap_or(-1.0)).collect::<Vec<_>>()),
+                        .set("last_samples_ms", smp.iter().map(|i| i.iter().filter(|x| x.0 <= t1).last().map(|x| ms(x.0)).unwrap_or(-1.0)).collect::<Vec<_>>()),
                 );
             }
         }
         if is_read {
             let l = lo(t0);
             if (total as i64) < l {
+                let q = if ended_by(t0) { "|some_instance_disposed_or_unregistered=yes" } else { "" };
+                // what each instance contributes to the bound (alive = written and not disposed / unregistered since)
+                let per_inst: Vec<String> = s
+                    .inst
+                    .iter()
+                    .enumerate()
+                    .map(|(k, i)| {
+                        let last = i.iter().filter(|e| e.lo <= t0).last();
+                        format!(
+                            "instance {}: last operation {} at {:.3} ms, at least {} misses",
+                            k,
+                            last.map(|e| op_name(e.op)).unwrap_or("none"),
+                            last.map(|e| ms(e.lo)).unwrap_or(-1.0),
+                            lower_ev(i, d, t0, s.lag)
+                        )
+                    })
+                    .collect();
                 v(
                     rep,
-                    "under_count",
+                    &format!("under_count{q}"),
                     format!(
-                        "{} deadline-missed total_count = {} at {:.3} ms, but at least {} full periods of {} ms had elapsed more than {} ms earlier",
+                        "{} deadline-missed total_count = {} at {:.3} ms, but at least {} full periods of {} ms had elapsed more than {} ms earlier on instances that were alive (written and not disposed / unregistered since) during those periods",
                         s.name, total, ms(t0), l, d / MS, s.lag / MS
                     ),
-                    Json::obj().set("total_count", total).set("lower_bound", l).set("at_ms", ms(t0)),
+                    Json::obj().set("total_count", total).set("lower_bound", l).set("at_ms", ms(t0)).set("per_instance", per_inst),
                 );
             }
         }
@@ -532,9 +675,9 @@ fn evaluate(rep: &mut Report, p: &P, o: &Out, replay: &Json, poll_hash: u64, cas
     }
     let mut fired: Vec<String> = Vec::new();
     // ---- offered side
-    let mut w_inst: Vec<Vec<Iv>> = vec![Vec::new(); p.n_inst as usize];
+    let mut w_inst: Vec<Vec<Ev>> = vec![Vec::new(); p.n_inst as usize];
     for w in &o.writes {
-        w_inst[w.inst as usize].push((w.t0, w.t1));
+        w_inst[w.inst as usize].push(Ev { lo: w.t0, hi: w.t1, op: w.op });
     }
     let mut w_obs: Vec<(i64, i64, i32, i32, bool)> = o.obs.iter().map(|x| (x.t0, x.t1, x.total, x.change, true)).collect();
     for c in o.cbs.iter().filter(|c| c.kind == StatusKind::OfferedDeadlineMissed) {
@@ -551,16 +694,17 @@ fn evaluate(rep: &mut Report, p: &P, o: &Out, replay: &Json, poll_hash: u64, cas
         if x.quiet && x.total > prev_total {
             // all instances must be far from a period boundary
             let d = p.d_w * MS;
-            let far = w_inst.iter().all(|i| match i.last() {
-                Some(l) => {
-                    let p_lo = (x.t0 - l.1).rem_euclid(d);
-                    let p_hi = (x.t1 - l.0).rem_euclid(d);
+            // (for a disposed / unregistered instance: far from the boundaries of every accepted reading)
+            let far = w_inst.iter().all(|i| {
+                let from = i.iter().rposition(|e| e.op == OP_WRITE).unwrap_or(0);
+                i[from..].iter().all(|l| {
+                    let p_lo = (x.t0 - l.hi).rem_euclid(d);
+                    let p_hi = (x.t1 - l.lo).rem_euclid(d);
                     p_lo > lag + 5 * MS && p_hi < d - 5 * MS && p_lo <= p_hi
-                }
-                None => true,
+                })
             });
-            let u: i64 = w_inst.iter().map(|i| upper(i, d, x.t1)).sum();
-            let l: i64 = w_inst.iter().map(|i| lower(i, d, x.t0, lag)).sum();
+            let u: i64 = w_inst.iter().map(|i| upper_ev(i, d, x.t1)).sum();
+            let l: i64 = w_inst.iter().map(|i| lower_ev(i, d, x.t0, lag)).sum();
             if far && (x.total as i64) <= u && (x.total as i64) >= l {
                 quiet_judged += 1;
                 let lst_ok = p.w_lst.is_some()
@@ -596,10 +740,10 @@ fn evaluate(rep: &mut Report, p: &P, o: &Out, replay: &Json, poll_hash: u64, cas
     // ---- requested side (only observable through the listener: the status getter is todo!())
     let da: Vec<&Cb> = o.cbs.iter().filter(|c| c.kind == StatusKind::DataAvailable).collect();
     let tight = p.r_lst == 0 && da.len() == o.writes.len();
-    let mut r_inst: Vec<Vec<Iv>> = vec![Vec::new(); p.n_inst as usize];
+    let mut r_inst: Vec<Vec<Ev>> = vec![Vec::new(); p.n_inst as usize];
     for (k, w) in o.writes.iter().enumerate() {
         let hi = if tight { w.t1.max(da[k].t) + MS } else { w.t1 + 55 * MS + 2 * p.jitter };
-        r_inst[w.inst as usize].push((w.t0, hi));
+        r_inst[w.inst as usize].push(Ev { lo: w.t0, hi, op: w.op });
     }
     if tight {
         rep.stat("reader_side_cases_with_observed_reception_times", 1);
@@ -630,7 +774,30 @@ fn evaluate(rep: &mut Report, p: &P, o: &Out, replay: &Json, poll_hash: u64, cas
     }
 
     // ---- evidence
-    rep.stat("writes", o.writes.len() as i128);
+    rep.stat("writes", o.writes.iter().filter(|w| w.op == OP_WRITE).count() as i128);
+    rep.stat("dispose_operations", o.writes.iter().filter(|w| w.op == OP_DISPOSE).count() as i128);
+    rep.stat("unregister_instance_operations", o.writes.iter().filter(|w| w.op == OP_UNREGISTER).count() as i128);
+    if p.n_inst > 1 {
+        rep.stat("cases_with_several_instances", 1);
+    }
+    if o.writes.iter().any(|w| w.op != OP_WRITE) {
+        rep.stat("cases_with_disposed_or_unregistered_instance", 1);
+    }
+    // an instance left for good while another one stayed alive and idle for at least one writer period
+    let left = |i: &Vec<Ev>| i.last().map(|e| e.op != OP_WRITE).unwrap_or(false);
+    let idle_alive = |i: &Vec<Ev>| i.last().map(|e| e.op == OP_WRITE && o.t_end - e.hi > p.d_w * MS + lag).unwrap_or(false);
+    if w_inst.iter().any(left) && w_inst.iter().any(idle_alive) {
+        rep.stat("cases_with_instance_gone_while_another_stays_alive_and_idle", 1);
+        // ... and the gone instance was registered (first written) before the idle one
+        let first = |i: &Vec<Ev>| i.first().map(|e| e.lo).unwrap_or(i64::MAX);
+        let g = w_inst.iter().filter(|i| left(i)).map(first).min().unwrap_or(i64::MAX);
+        let a = w_inst.iter().filter(|i| idle_alive(i)).map(first).max().unwrap_or(i64::MIN);
+        if g < a {
+            rep.stat("cases_with_gone_instance_registered_before_idle_alive_one", 1);
+        }
+    }
+    rep.stat("offered_counts_judged(reads+callbacks)", ws.obs.len() as i128);
+    rep.stat("requested_counts_judged(callbacks+checkpoints)", rs.obs.len() as i128);
     rep.stat("writer_status_reads", o.obs.len() as i128);
     rep.stat("quiet_point_signalling_checks", quiet_judged as i128);
     rep.stat("offered_deadline_missed_callbacks", o.cbs.iter().filter(|c| c.kind == StatusKind::OfferedDeadlineMissed).count() as i128);
@@ -684,12 +851,15 @@ pub fn run(shard: &Shard) -> Report {
         cfg.sim.policy = p.policy;
         cfg.sim.clock_tick = p.clock_tick;
         cfg.sim.jitter_max = p.jitter;
-        cfg.sim.max_polls = shard.args.u64("max-polls", 3_000_000);
+        // a fault-free case needs a few thousand polls (see max_polls_per_case); the budget ends runs in
+        // which the worker spins without virtual time advancing (reported as inconclusive, never as a verdict)
+        cfg.sim.max_polls = shard.args.u64("max-polls", 100_000);
         let p2 = p.clone();
         let (res, stats, _net) = run_world(&cfg, move |w| scenario(w, p2));
         rep.eval();
         let replay = shard.base_replay("c30", case).set("engine", "scen_stat").set("params", p.to_json());
         rep.stat("worker_polls", stats.worker_polls as i128);
+        rep.maxstat("max_polls_per_case", stats.polls as i128);
         rep.maxstat("max_virtual_s", ((stats.end_ns - EPOCH_NS) / SEC) as i128);
         let panicked = report_panics(&mut rep, &stats, &replay);
         let Some(o) = res else {
